@@ -437,18 +437,42 @@ func (s *HASyncer) broadcastLoop() {
 
 // broadcastToClients sends a message to all connected SSE clients.
 func (s *HASyncer) broadcastToClients(msg *SyncMessage) {
-	s.sseClientsMu.RLock()
-	defer s.sseClientsMu.RUnlock()
+	var overflowed map[string]chan *SyncMessage
 
+	s.sseClientsMu.RLock()
 	for clientID, ch := range s.sseClients {
 		select {
 		case ch <- msg:
 		default:
-			s.logger.Warn("Client channel full, dropping message",
+			// The client cannot keep up. Dropping the message silently would
+			// leave the standby diverged until its next reconnect, so the
+			// client is disconnected instead: it reconnects and recovers
+			// with a full sync.
+			if overflowed == nil {
+				overflowed = make(map[string]chan *SyncMessage)
+			}
+			overflowed[clientID] = ch
+		}
+	}
+	s.sseClientsMu.RUnlock()
+
+	if len(overflowed) == 0 {
+		return
+	}
+
+	s.sseClientsMu.Lock()
+	for clientID, ch := range overflowed {
+		// Only close the channel if it is still the registered one (the
+		// handler may have deregistered it, Stop may have closed it).
+		if s.sseClients[clientID] == ch {
+			delete(s.sseClients, clientID)
+			close(ch)
+			s.logger.Warn("Client channel full, disconnecting client to force a resync",
 				zap.String("client", clientID),
 			)
 		}
 	}
+	s.sseClientsMu.Unlock()
 }
 
 // PushChange queues a session change to be pushed to standby nodes.
